@@ -661,6 +661,24 @@ Proof.
     cbn [forallb] in *. rewrite same_except_refl. cbn [andb]. assumption.
 Qed.
 
+Lemma cat_fixed_correct : forall ss dim out, torch_cat_shape ss dim = Some out -> aten_cat_fixed ss dim = Some out.
+Proof.
+  intros ss dim out H. destruct ss as [|s0 rest]; [discriminate|].
+  unfold aten_cat_fixed. change (fun s => negb (legacy_empty s)) with (fun s => negb (is_legacy_empty s)).
+  destruct (filter (fun s => negb (is_legacy_empty s)) (s0 :: rest)) as [|x r] eqn:Ef.
+  - unfold torch_cat_shape in H. rewrite Ef in H. exact H.
+  - assert (Hall : forall s, In s (x :: r) -> legacy_empty s = false).
+    { intros s Hs. rewrite <- Ef in Hs. apply filter_In in Hs. destruct Hs as [_ Hs]. destruct (legacy_empty s) eqn:E; [|reflexivity].
+      change (is_legacy_empty s) with (legacy_empty s) in Hs. rewrite E in Hs. discriminate. }
+    assert (Hid : filter (fun s => negb (is_legacy_empty s)) (x :: r) = x :: r).
+    { apply filter_id_gen. intros s Hs. change (is_legacy_empty s) with (legacy_empty s). rewrite (Hall s Hs). reflexivity. }
+    assert (H' : torch_cat_shape (x :: r) dim = Some out).
+    { unfold torch_cat_shape in *. rewrite Ef in H. rewrite Hid. exact H. }
+    pose proof (cat_correct (x :: r) dim out Hall H') as Hc. unfold aten_cat in Hc.
+    change (fun s => negb (legacy_empty s)) with (fun s => negb (is_legacy_empty s)) in Hc. rewrite Hid in Hc.
+    destruct r; exact Hc.
+Qed.
+
 (* ------------------------------------------------------------------ unflatten *)
 Lemma count_of_app : forall v a b, count_of v (a ++ b) = (count_of v a + count_of v b)%nat.
 Proof. intros. unfold count_of. rewrite filter_app', app_length. reflexivity. Qed.
